@@ -90,10 +90,14 @@ def distribute(computation_graph: ComputationGraph,
     # In order to remove (latter on) distribution hints, we interpret
     # hosting costs of 0 as a "must host" relationship
     must_host = defaultdict(lambda : [])
+    pinned = set()
     for agent in agentsdef:
         for comp in computation_graph.node_names():
-            if agent.hosting_cost(comp) == 0:
+            # A computation can only be pinned on one agent: the first one
+            # with a null hosting cost.
+            if agent.hosting_cost(comp) == 0 and comp not in pinned:
                 must_host[agent.name].append(comp)
+                pinned.add(comp)
     logger.debug(f"Must host: {must_host}")
 
     return factor_graph_lp_model(computation_graph, agents, must_host,
